@@ -261,9 +261,13 @@ func permute(a []int, k int, f func([]int) bool) bool {
 // them as exactly one structurally valid MQTT v5.0 frame, the library must
 // accept them too and report the values the reference reading gives.
 func checkC03Frame(data []byte) string {
-	want, err := ref.DecodeStrict(data)
-	if err != nil {
-		return "" // not in the valid-frame language (as far as the strict reading goes)
+	want, remarks, err := ref.DecodePedantic(data)
+	if err != nil || len(remarks) > 0 {
+		// not in the valid-frame language as far as the strict reading goes,
+		// or carrying a value the specification forbids although it parses
+		// (Receive Maximum 0, ill-formed UTF-8, wildcard in a topic name, ...):
+		// a decoder may reject those, nothing is claimed
+		return ""
 	}
 	_, msg := compareWithFrame(data, want)
 	return msg
